@@ -98,7 +98,9 @@ def run(ctx):
         rise_vals = [r[1] for r in rise_view]
         rec_vals = [r[1] / 86400.0 for r in rec_view]
         levels = [r[0] for r in rise_view] + [r[0] for r in rec_view]
-        for params in (sim.spline_params(rng, min(tr.level), max(tr.level)), sim.peatclsm_params(rng, max(tr.level))):
+        for params in (sim.spline_params(rng, min(tr.level), max(tr.level)),
+                       sim.spline_params(rng, min(tr.level), max(tr.level), n_sy=rng.randint(6, 9), oscillating=True),
+                       sim.peatclsm_params(rng, max(tr.level))):
             inp = {"truth": tr.describe(), "zeta_step": zstep, "parameters": params}
             ctx.case(("c19", tr.describe(), str(params)), True)
             files, status = {}, {}
@@ -154,7 +156,12 @@ def run(ctx):
                     got = ctx.driver.call("pest.runins", {"n_rise": len(rise_vals), "n_recession": len(rec_vals),
                                                           "curves": True, "out": out_lines})
                     ok_ins = True
-                    if [round(r[0], 6) for r in rows] != [round(z, 6) for z in levels]:
+                    if vec != [r[2] for r in rows]:
+                        bad = [k for k, (a, b) in enumerate(zip(vec, [r[2] for r in rows])) if a != b][:3]
+                        wit = {"why": "the k-th value of the --observations vector is not the simulated value at the k-th "
+                                      "observation's water level", "positions": bad,
+                               "vector": [vec[k] for k in bad], "table": [rows[k] for k in bad]}
+                    elif [round(r[0], 6) for r in rows] != [round(z, 6) for z in levels]:
                         wit = {"why": "k-th simulated value and k-th observation are not at the same water level",
                                "simulated_levels": [r[0] for r in rows][:6], "observation_levels": levels[:6]}
                     elif [g[0] for g in got] != ["e%d" % (k + 1) for k in range(len(vec))]:
@@ -292,5 +299,4 @@ def float_roundtrip(ctx, n):
 
 
 def replay(ctx, doc):
-    print("replay: rerun the check with VERIF_SEED=%s" % doc.get("seed"))
-    return True
+    return None   # re-run the stream with the recorded seed (check.py does it)
